@@ -269,11 +269,12 @@ CLAIMED = {
         "component / the imported name) in the innermost scope only (loop invariants); visit_AnnAssign, visit_NamedExpr, visit_Try bind their target / `except .. as` names "
         "before the sub-nodes are visited; visit_Delete never binds anything; visit_With / visit_For bind the `as` names of EVERY item (loop invariant over the items; items without `as` bind nothing) / the loop "
         "target before the body is visited, in the innermost scope only; visit_ClassDef / visit_FunctionDef give the name to the enclosing scope, open a fresh EMPTY scope before "
-        "parameters are bound / the body is visited, and close it again. Bounded stand-in (not proved): 12 binding forms x scope depths 0..2 (global: 1..3) x "
+        "parameters are bound / the body is visited, and close it again; is_in_scope - the decision itself - answers True exactly when every name the node READS (names it binds itself "
+        "excluded) is found in SOME scope of the stack (loop invariant over the reversed stack: the names still missing are those found in none of the scopes passed). Bounded stand-in (not proved): 12 binding forms x scope depths 0..2 (global: 1..3) x "
         "probe positions + del / parameter / class-body / session-name cases through the real Execer.parse, decision on a probe line `X -l` against Python's "
         "scoping rules.",
-   note="Two genuine defects repaired (fix: 2827a8d: a walrus inside an expression statement was not recorded; c760ec2: `import a.b` recorded the dotted path instead of a). Unverified: is_in_scope / the name gathering "
-        "helpers (gather_names, leftmostname), visit_Assign (bounded only); in visit_For / visit_With what gather_names / leftmostname return for a target is a ghost function, the with-body hypothesis on "
+   note="Two genuine defects repaired (fix: 2827a8d: a walrus inside an expression statement was not recorded; c760ec2: `import a.b` recorded the dotted path instead of a). Unverified: the name gathering "
+        "helpers (gather_load_store_names - a ghost function in is_in_scope's contract -, gather_names, leftmostname), the callers of is_in_scope (visit_Expr / visit_BoolOp / visit_UnaryOp: bounded only), the $XONSH_BUILTINS_TO_CMD carve-outs, visit_Assign (bounded only); in visit_For / visit_With what gather_names / leftmostname return for a target is a ghost function, the with-body hypothesis on "
         "generic_visit (stack depth preserved), ctxupdate's generator argument in visit_FunctionDef (abstracted: assumed to touch the innermost scope only, "
         "which is ctxupdate's own verified contract), the three-phase parse and 'decision before anything runs' (Execer.parse / compile / exec), "
         "_SubprocChainRaiseWrapper. Trusted: pyvc engine + set-slot model + z3/cvc5.",
@@ -300,11 +301,13 @@ CLAIMED = {
         "with tilde expansion off the result is exactly the ($VAR-expanded) word; a plain word gets exactly one tilde expansion; for `key=value` the key is expanded, the `=` kept, "
         "and the result is key' = ':'.join(map(expanduser, value.split(':'))) - EACH colon-separated field expanded on its own, none dropped, added or merged (map over a sequence "
         "value is the uninterpreted sequence map_f(xs) with its two defining facts, so code and clause denote the same term). @() injection: ensure_str_or_callable returns a string or callable untouched (bytes: os.fsdecode); list_of_strs_or_callables "
-        "turns ANY string - the empty one included - into exactly one argument equal to it (separate contract #string) and a list of strings into one argument per element, in order, each untouched (#list). "
+        "turns ANY string - the empty one included - into exactly one argument equal to it (separate contract #string) and a list of strings into one argument per element, in order, each untouched (#list); SubprocSpec.resolve_args_list weaves the "
+        "elements of the command in order - a word adds exactly itself, an injected list adds its strings in order each as ONE argument, a redirect adds its (operator, target) pair - "
+        "nothing re-split, merged, dropped or added (loop invariant against a weave function defined by four axioms). "
         "Bounded stand-in (not proved): 41 argument strings (the empty string included) "
         "(spaces, quotes, backslashes, newlines, glob and shell metacharacters, tilde / assignment shapes) x up to 8 delivery forms (@(expr), @([list]), r'..', r\"\"\"..\"\"\", plain, "
         "triple-quoted, f-string, bare word) x 3 positions through the real execer to a recording callable alias, plus a real child process for a subset.",
-   note="KNOWN FINDING (recorded): a value injected right next to a word (`w@('*')`) is globbed / tilde-expanded. Unverified: the parser actions that assemble the argument list (_subproc_cliargs, p_subproc_atom_*, p_string_literal - bounded only), list_of_list_of_strs_outer_product (see the known finding), macro raw-text slicing, SubprocSpec.resolve_args_list / _fix_null_cmd_bytes, @$() re-splitting, expandvars itself, "
+   note="KNOWN FINDING (recorded): a value injected right next to a word (`w@('*')`) is globbed / tilde-expanded. Unverified: the parser actions that assemble the argument list (_subproc_cliargs, p_subproc_atom_*, p_string_literal - bounded only), list_of_list_of_strs_outer_product (see the known finding), macro raw-text slicing, SubprocSpec._fix_null_cmd_bytes, @$() re-splitting, expandvars itself, "
         "that os.path.expanduser leaves text not starting with `~` alone (assumed). Trusted: pyvc engine + str.split / str.join / map as uninterpreted functions + z3.",
    design="§3 C04"),
  "C18": dict(
